@@ -25,6 +25,11 @@ Theorem C03_compose_jet (t : tree gjoint) (base : PV) : pose_ok base ->
 Proof. exact (compose_jet t base). Qed.
 Print Assumptions C03_compose_jet.
 
+Theorem C03_reversed_joint_ok XPF XMB X V : tjoint_ok (mkTJ XPF XMB X V) ->
+  tjoint_ok (mkTJ XPF XMB (fun t => rev_X ROps (X t)) (rev_col ROps (rev_X ROps (X 0)) V)).
+Proof. exact (reversed_joint_ok XPF XMB X V). Qed.
+Print Assumptions C03_reversed_joint_ok.
+
 Theorem C03_ground_ok : pose_ok (fun _ => xf_id ROps, ((0,0,0),(0,0,0))).
 Proof. exact (@ground_ok). Qed.
 Print Assumptions C03_ground_ok.
